@@ -6,6 +6,7 @@ import (
 	"sync"
 
 	"github.com/emersion/go-message/textproto"
+	"github.com/emersion/go-msgauth/authres"
 	"github.com/foxcpp/maddy/framework/buffer"
 	"github.com/foxcpp/maddy/framework/config"
 	"github.com/foxcpp/maddy/framework/exterrors"
@@ -36,6 +37,9 @@ type CheckPlan struct {
 	Sender   Verdict
 	Rcpt     map[string]Verdict
 	Body     Verdict
+	// BodyAuth: authentication results attached to the body-stage result
+	// (input of the DMARC evaluation)
+	BodyAuth []authres.Result
 }
 
 // CheckCall is one observed call.
@@ -161,7 +165,9 @@ func (st *scriptedCheckState) CheckRcpt(ctx context.Context, rcptTo string) modu
 func (st *scriptedCheckState) CheckBody(ctx context.Context, header textproto.Header, body buffer.Buffer) module.CheckResult {
 	simrt.Point("chk:"+st.c.Label, "body")
 	st.c.log(CheckCall{StateN: st.n, Tag: st.tag, MsgID: st.id, Stage: "body", Verdict: st.plan.Body})
-	return st.result(st.plan.Body, "body")
+	res := st.result(st.plan.Body, "body")
+	res.AuthResult = st.plan.BodyAuth
+	return res
 }
 
 func (st *scriptedCheckState) Close() error {
